@@ -293,10 +293,10 @@ pub fn gen_map(rng: &mut Rng, sh: &Shape) -> MapText {
         for _ in 0..extra {
             let tt = rng.frange(start, end).round();
             if rng.chance(0.4) {
-                let bl = *rng.pick(&[500.0, 250.0, 375.0, 1000.0, 187.5, 60000.0, 6.0]);
+                let bl = if rng.chance(0.03) { *rng.pick(&[60000.0, 6.0, 20000.0]) } else { *rng.pick(&[500.0, 250.0, 375.0, 1000.0, 187.5, 2000.0]) };
                 m.timing.push(format!("{tt},{bl},4,2,0,100,1,0"));
             } else {
-                let sv = *rng.pick(&[-100.0, -50.0, -200.0, -133.333_333_333_333, -75.0, -1000.0, -10.0]);
+                let sv = if rng.chance(0.05) { *rng.pick(&[-1000.0, -10.0]) } else { *rng.pick(&[-100.0, -50.0, -200.0, -133.333_333_333_333, -75.0, -400.0, -25.0]) };
                 let kiai = u8::from(rng.chance(0.3));
                 m.timing.push(format!("{tt},{sv},4,2,0,100,0,{kiai}"));
             }
